@@ -406,7 +406,7 @@ def parent_main(check_id, tier, seed, nshards=None, only_case=None):
     if viol:
         os.makedirs(os.path.join(VERIF, "replays"), exist_ok=True)
         paths = []
-        for k, fl in sorted(viol.items())[:12]:
+        for k, fl in sorted(viol.items())[:40]:
             f = fl[0]
             rp = os.path.join(VERIF, "replays", "%s-%s.json" % (check_id, _sig(k)))
             with open(rp, "w") as fh:
